@@ -14,6 +14,9 @@ pub struct ScopeInfo {
     pub c_columns: Vec<usize>,
     /// A row whose entry widths do not add up to the header width (should not be generated)
     pub bad_row_width: bool,
+    /// Identifier occurrences (by node address within the analysed program) that are read
+    /// where a variable of that name is in scope: these mean the variable, never a signal
+    pub bound: HashSet<usize>,
 }
 
 struct W<'a> {
@@ -27,8 +30,18 @@ impl<'a> W<'a> {
         self.scopes.iter().any(|s| s.contains(n))
     }
     fn read(&mut self, e: &'a Expr, blind: bool) {
-        for n in e.idents() {
-            if (blind || !self.in_scope(n)) && !self.info.output_reads.iter().any(|x| x == n) {
+        let mut nodes = vec![];
+        e.walk(&mut |x| {
+            if let Expr::Ident(n) = x {
+                nodes.push((x as *const Expr as usize, n.as_str()))
+            }
+        });
+        for (addr, n) in nodes {
+            let free = blind || !self.in_scope(n);
+            if !free {
+                self.info.bound.insert(addr);
+            }
+            if free && !self.info.output_reads.iter().any(|x| x == n) {
                 self.info.output_reads.push(n.to_string());
             }
         }
